@@ -371,6 +371,34 @@ func TestEveryTickWire(t *testing.T) {
 
 type seqCase struct {
 	Vals []valgen.Val `json:"values_converted_one_after_the_other"`
+	// Refused[i] > 0: before value i is converted, a conversion is attempted that the library
+	// has to refuse (a Go value of the wrong type or width, bytes of the wrong length); whether
+	// and how it fails is not judged here, what comes after it is
+	Refused []int `json:"refused_attempt_before_value,omitempty"`
+}
+
+func refusedAttempt(k int) {
+	defer func() { recover() }()
+	switch k {
+	case 1:
+		_, _ = asetypes.INT4.Bytes(le, int64(7), 4)
+	case 2:
+		_, _ = asetypes.INT8.Bytes(le, int32(7), 8)
+	case 3:
+		_, _ = asetypes.FLT4.Bytes(le, float64(1.5), 4)
+	case 4:
+		_, _ = asetypes.INT2.Bytes(le, "seven", 2)
+	case 5:
+		_, _ = asetypes.MONEY.Bytes(le, "x", 8)
+	case 6:
+		_, _ = asetypes.INT4.GoValue(le, []byte{1, 2, 3})
+	case 7:
+		_, _ = asetypes.DATETIME.GoValue(le, []byte{1, 2, 3, 4, 5})
+	case 8:
+		_, _ = asetypes.VARCHAR.Bytes(le, 12345, 255)
+	case 9:
+		_, _ = asetypes.INTN.Bytes(le, int64(1)<<40, 2)
+	}
 }
 
 func runSeq(c seqCase) (f *vh.Failure) {
@@ -381,7 +409,11 @@ func runSeq(c seqCase) (f *vh.Failure) {
 	}()
 	var refs, libs [][]byte
 	var gots []interface{}
-	for _, v := range c.Vals {
+	for i, v := range c.Vals {
+		if i < len(c.Refused) && c.Refused[i] > 0 {
+			refusedAttempt(c.Refused[i])
+			vh.Label("sequence:refused-attempt-before-a-conversion")
+		}
 		dt := asetypes.DataType(v.T)
 		ref, err := rc.Encode(v.V)
 		if err != nil {
@@ -457,6 +489,11 @@ func TestSequencesOfConversions(t *testing.T) {
 			// the decoded value is compared at tick granularity with the value the bytes stand for
 			v.JitNs = 0
 			c.Vals = append(c.Vals, v)
+			k := 0
+			if rapid.IntRange(0, 3).Draw(rt, "refused?") == 0 {
+				k = rapid.IntRange(1, 9).Draw(rt, "refused")
+			}
+			c.Refused = append(c.Refused, k)
 		}
 		vh.Sample("sequence", c)
 		return c
